@@ -5,4 +5,5 @@ Extraction Language OCaml.
 Extraction "model.ml" Z.add Z.of_N Nat.add cnew cset cdelete cget ccount cstring_count cpoint_count
   ctotal_weight scan_ids search_values spatial_list scan_expires c_spatial bounds_ok bounds_exact
   rect64_of_bits f64_of_bits bits_of_f32 bits_of_f64 geo_search intersects32 rtree_rect
-  coll_scan_ids coll_search_ids coll_scan_count coll_search_count scan_hit search_hit.
+  coll_scan_ids coll_search_ids coll_scan_count coll_search_count scan_hit search_hit
+  coll_scan_count_at coll_search_count_at.
